@@ -85,10 +85,14 @@ type Track struct {
 	SplitStts, SplitCtts, SplitStsc []int
 	ZeroCountStts                   bool // an stts entry with sample_count 0 in front of every run started by SplitStts
 	ZeroCountCtts                   bool // likewise for ctts and SplitCtts
+	// EntriesEqualSamples: stts and ctts get exactly as many entries as there are samples without being
+	// 1:1 (some entries cover two samples and are followed by an entry with sample_count 0)
+	EntriesEqualSamples     bool // ctts
+	EntriesEqualSamplesStts bool // stts (changes sample durations: set before anything is derived from them)
 	// ShortPresentation > 0: the (last) edit presents only 1/ShortPresentation of the media, and tkhd.duration
 	// is the sum of the edits (the media itself is longer)
 	ShortPresentation int
-	StblOrder                       []string // order of the children after stsd; nil = default
+	StblOrder         []string // order of the children after stsd; nil = default
 
 	TkhdVersion, MdhdVersion, ElstVersion byte
 	Elst                                  []ElstEntry // nil: no edts
@@ -222,6 +226,19 @@ func (t *Track) computeTables() error {
 		s := &t.Samples[i]
 		s.Ordinal = i + 1
 		s.DecodeTime = dt
+		if t.EntriesEqualSamplesStts && n >= 3 {
+			// as for ctts below: entry_count == sample count, but not one entry per sample
+			if i%5 == 1 {
+				s.Dur = t.Samples[i-1].Dur
+				dt += uint64(s.Dur)
+				tb.Stts[len(tb.Stts)-1].Count++
+				tb.Stts = append(tb.Stts, SttsRun{0, s.Dur + 11})
+				continue
+			}
+			dt += uint64(s.Dur)
+			tb.Stts = append(tb.Stts, SttsRun{1, s.Dur})
+			continue
+		}
 		dt += uint64(s.Dur)
 		if k := len(tb.Stts); k > 0 && tb.Stts[k-1].Delta == s.Dur && !cs[i] {
 			tb.Stts[k-1].Count++
@@ -235,7 +252,19 @@ func (t *Track) computeTables() error {
 	}
 	t.TotalDuration = dt
 	// ctts
-	if t.HasCtts {
+	if t.HasCtts && t.EntriesEqualSamples && n >= 3 {
+		// one entry per sample, except that every seventh pair shares an entry which is followed by an
+		// entry with sample_count 0: entry_count equals the sample count although the table is not 1:1
+		for i := 0; i < n; i++ {
+			if i%7 == 0 && i+1 < n {
+				t.Samples[i+1].Cto = t.Samples[i].Cto
+				tb.Ctts = append(tb.Ctts, CttsRun{2, t.Samples[i].Cto}, CttsRun{0, t.Samples[i].Cto + 7777})
+				i++
+				continue
+			}
+			tb.Ctts = append(tb.Ctts, CttsRun{1, t.Samples[i].Cto})
+		}
+	} else if t.HasCtts {
 		cc := cut(t.SplitCtts)
 		for i := range t.Samples {
 			s := &t.Samples[i]
